@@ -22,7 +22,7 @@
    imports, methods / generics / function literals as generator hosts are not modelled. *)
 From Coq Require Import List.
 From Verif Require Import Base Syntax Rewrite Side.
-From Verif Require Import Accept C01Main Placement Legal P3Term.
+From Verif Require Import Accept C01Main Placement Legal P3Term P3Legal C01Legal.
 Import ListNotations.
 
 Theorem C11_no_assertion_failure_partial :
@@ -62,10 +62,10 @@ Print Assumptions C11_branch_placement_partial.
 Theorem C11_function_literals_terminate_partial :
   forall (body mid : list stmt) (k : nat),
     supps k (map (pass0 400) body) = true -> pass12 body = OK mid ->
-    lastT mid /\ Forall WT mid.
+    lastT mid /\ Forall (WT false) mid.
 Proof.
   intros body mid k Hs H12. destruct (pass12_spec body mid H12) as [B [HB ->]].
-  exact (pass2_terminates _ k _ B Hs HB).
+  rewrite <- supps2_false in Hs. exact (pass2_terminates false _ k _ B Hs HB).
 Qed.
 Print Assumptions C11_function_literals_terminate_partial.
 
@@ -82,8 +82,8 @@ Proof.
   intros body mid out ks k Hs H12 Hr Hf Hk.
   destruct (rewrite_spec body out Hr) as [mid' [H12' ->]]. rewrite H12 in H12'. injection H12' as <-.
   destruct (pass12_spec body mid H12) as [B [HB ->]].
-  destruct (pass2_terminates _ ks _ B Hs HB) as [Hl Hw].
-  apply pass3_terminates; [unfold P3FUEL; apply (PeanoNat.Nat.le_lt_trans _ 199); [exact Hk|repeat constructor]|exact Hk|exact Hf|exact Hw|exact Hl].
+  rewrite <- supps2_false in Hs. destruct (pass2_terminates false _ ks _ B Hs HB) as [Hl Hw].
+  apply (pass3_terminates false); [unfold P3FUEL; apply (PeanoNat.Nat.le_lt_trans _ 199); [exact Hk|repeat constructor]|exact Hk|exact Hf|exact Hw|exact Hl].
 Qed.
 Print Assumptions C11_output_literals_terminate_partial.
 
@@ -103,3 +103,17 @@ Proof. cbv zeta. split; [vm_compute; reflexivity|]. eexists. vm_compute. reflexi
 Example C11_example_reject :
   rewrite [SIf (Some (SYield 1)) 2 [SYield 3] ENone] = Err E_YIELD_IN_INIT.
 Proof. vm_compute. reflexivity. Qed.
+
+(* For bodies without `fallthrough` the whole legality condition of Strict.v is a theorem: in the output of the
+   rewriter model no break / continue is left outside a native loop / switch, no bare `return` or `fallthrough`
+   anywhere, every function literal at any depth ends in a terminating statement, init / post statements are simple
+   and the nesting depth stays within the checker's fuel.  ([legalb] is what makes the strict reading of callbacks —
+   Go's — coincide with the reading the simulation proof uses; types, names, imports, unused variables are outside the model.) *)
+Theorem C11_output_is_legal_partial :
+  forall (body mid out : list stmt) (ks : nat),
+    supps2 true ks (map (pass0 400) body) = true ->
+    pass12 body = OK mid -> rewrite body = OK out ->
+    forallb (fitsb KS) mid = true ->
+    legalb (S (S KS)) out = true.
+Proof. exact rewrite_legal. Qed.
+Print Assumptions C11_output_is_legal_partial.
